@@ -2,10 +2,13 @@
 mod alloc;
 mod evidence;
 mod mon;
+mod plan;
+mod refstf;
 mod refvm;
 mod runner;
 mod util;
 mod vmgen;
+mod world;
 
 use std::collections::BTreeMap;
 use std::time::Instant;
@@ -26,6 +29,10 @@ type ReplayFn = fn(&serde_json::Value) -> evidence::Check;
 
 fn table(id: &str) -> Option<(RunFn, ReplayFn, Vec<&'static str>)> {
     Some(match id {
+        "C01" => (mon::c01::run as RunFn, mon::c01::replay as ReplayFn, vec!["supply is summed from the decoded coin and pool trees; every tree entry must be explained by an identifier the harness created", "RefSTF's peg/subsidy amounts bound what may be issued at sealing"]),
+        "C02" => (mon::c02::run, mon::c02::replay, vec!["RefSTF is the model of what acceptance requires; only the necessary direction is enforced", "batches spending non-first outputs of staking transactions are excluded"]),
+        "C09" => (mon::c09::run, mon::c09::replay, vec!["genesis supply per denomination is kept below 2^126", "engine and dependencies are built with overflow-checks and debug-assertions on"]),
+        "C20" => (mon::c20::run, mon::c20::replay, vec!["coin-tree keys are decoded through the harness's registry of identifiers"]),
         "C10" => (mon::c10::run as RunFn, mon::c10::replay as ReplayFn, vec!["RefVM's reading of the opcode documentation is the specification; where the documentation is silent RefVM follows the pinned implementation (regression oracle)", "programs with reference weight above 50 000 are not executed"]),
         "C11" => (mon::c11::run, mon::c11::replay, vec!["memory is measured as heap bytes allocated by the calling thread", "time is measured as instructions executed and weigh steps, never wall-clock"]),
         "C12" => (mon::c12::run, mon::c12::replay, vec!["opcode byte values are taken from the constants table", "weight comparison is skipped for programs with more than 10 loop instructions (cost belongs to C11)"]),
@@ -67,7 +74,14 @@ fn main() {
                 for f in files {
                     if let Ok(b) = std::fs::read(&f) {
                         if let Ok(v) = serde_json::from_slice::<serde_json::Value>(&b) {
-                            let r = replay(&v["case"]);
+                            let case = v["case"].clone();
+                            let r = std::thread::Builder::new()
+                                .name("s201".into())
+                                .stack_size(256 << 20)
+                                .spawn(move || replay(&case))
+                                .unwrap()
+                                .join()
+                                .expect("replay thread died");
                             replay_results.push(serde_json::json!({"file": f.display().to_string(), "still_fails": r.is_err()}));
                             if let Err(viol) = r {
                                 if ctx.known.matches(&id, &viol.signature).is_none() {
@@ -127,7 +141,15 @@ fn main() {
             let (_, replay, _) = table(&id).unwrap_or_else(|| usage());
             let b = std::fs::read(&args[3]).expect("cannot read replay file");
             let v: serde_json::Value = serde_json::from_slice(&b).expect("replay is not JSON");
-            match replay(&v["case"]) {
+            let case = v["case"].clone();
+            let res = std::thread::Builder::new()
+                .name("s200".into())
+                .stack_size(256 << 20)
+                .spawn(move || replay(&case))
+                .unwrap()
+                .join()
+                .expect("replay thread died");
+            match res {
                 Ok(()) => {
                     println!("replay passes: property={} file={}", id, args[3]);
                     std::process::exit(0)
